@@ -278,6 +278,14 @@ def _spectrum(spec, r, rng):
     return np.ones(r)  # flat: exactly equal variances
 
 
+def _mixed(case):
+    return bool(case["fam"] == "single" and not case.get("standardize") and case["dseed"] % 5 == 2)
+
+
+def _center(case):
+    return bool(not (case["fam"] == "single" and case["dseed"] % 4 == 1))
+
+
 def build(case):
     rng = gen.rng_for(case["dseed"], 11)
     n, p, r, cplx = case["n"], case["p"], case["r"], case["cplx"]
@@ -286,7 +294,11 @@ def build(case):
     if case["fam"] == "single":
         M, _, _ = gen.low_rank(n, p, s * np.sqrt(n), rng, cplx=cplx, perp_ones=True)
         off = rng.standard_normal(p) + (1j * rng.standard_normal(p) if cplx else 0)
-        X = xu.make_da((M + off) * scale, (p,), ("x",), sample_dim="time")
+        colscale = np.ones(p)
+        if _mixed(case):
+            # variables of very different magnitude analysed together (pressure in Pa next to humidity in kg/kg)
+            colscale[p // 2 :] = 1e-9
+        X = xu.make_da((M + off) * scale * colscale, (p,), ("x",), sample_dim="time")
         return [X]
     q = case["q"]
     U = gen.orthonormal(n, r, rng, cplx, perp_ones=True)
@@ -399,7 +411,9 @@ def _run_case(case, obs):
 
     # ---- base model -----------------------------------------------------------------
     if fam == "single":
-        kw = zoo.default_kwargs(base_name, n_modes=K, standardize=case["standardize"])
+        kw = zoo.default_kwargs(base_name, n_modes=K, standardize=case["standardize"], center=_center(case))
+        obs.cell(f"center:{_center(case)}", f"mixed_magnitudes:{_mixed(case)}")
+        obs.tag(center=_center(case), mixed_magnitudes=_mixed(case))
     else:
         lt1 = _alpha_lt1(base_name, case["alpha"])
         obs.tag(use_pca=case["use_pca"], alpha_lt1=lt1)
@@ -491,6 +505,12 @@ def _run_case(case, obs):
     # ---- (i) the reconstruction is unchanged ----------------------------------------------
     for f, (a, b) in enumerate(zip(rec, ref)):
         obs.close(f"recon_equals_unrotated_f{f}", a, b, TOL, tags=dict(op="inverse_transform", symptom="reconstruction_differs", field=f"f{f}"))
+        # per feature, in units of that feature: an error confined to variables of small magnitude is invisible in
+        # a norm relative to the global maximum
+        cs = np.abs(b).max(axis=0)
+        okc = cs > 0
+        if okc.any():
+            obs.close(f"recon_equals_unrotated_per_feature_f{f}", a[:, okc] / cs[okc], b[:, okc] / cs[okc], 1e-7, scale=1.0, tags=dict(op="inverse_transform", symptom="reconstruction_differs", field=f"f{f}", per_feature=True))
     if rec_n is not None:
         rec_n = _data_mats(rec_n, data)
         obs.close("recon_from_normalized_scores", rec_n[0], ref[0], TOL, tags=dict(op="inverse_transform_normalized", symptom="reconstruction_differs"))
